@@ -15,6 +15,15 @@ root = os.path.dirname(os.path.dirname(os.path.abspath(__file__)))
 tmpl = open("/tmp/seedout/PROMPT_TEMPLATE.txt").read() if os.path.exists("/tmp/seedout/PROMPT_TEMPLATE.txt") else open(os.path.join(root, "tools/SEED_PROMPT_TEMPLATE.txt")).read()
 
 EMPH = {
+    "5": ("This is the fifth round. Prefer changes of these kinds, which earlier rounds under-used: "
+          "(a) a change in a HELPER the property's code relies on rather than in the obvious file (encoding/utility helpers, priority queue, "
+          "name/hash helpers, option/config parsing, constants and defaults) whose effect only shows through the property's code path; "
+          "(b) lifecycle slips: cleanup/close/reset paths, re-initialisation, re-use of an object after it was closed or emptied, state that survives a "
+          "remove-then-re-add of the same key, counters or indices not reset; "
+          "(c) integer width/conversion slips (uint16/uint32/int casts, truncation, signed/unsigned comparison, overflow at a size threshold such as 253, 65536, MTU, capacity); "
+          "(d) ordering of two writes or of a check and an update (check-then-act, publish-before-initialise, a lock scope narrowed by one statement, an early unlock), "
+          "visible only under one specific interleaving or re-entrant call; "
+          "(e) an error path that swallows or mis-propagates (returns nil error with a partial result, continues instead of returning, retries the wrong thing). "),
     "4": ("This is the fourth round. Prefer changes of these kinds, which earlier rounds under-used: "
           "(a) a DIFFERENT entry point or code path reaching the same state (an alternative public function, an error/early-return path, "
           "a rarely-taken branch such as a retransmission, an update of an existing item rather than an insert, a removal of the last/only/middle item); "
